@@ -158,6 +158,21 @@ type LoadPlan struct {
 	Points int    `json:"points,omitempty"` // scheduling points inside the loader
 	Stall  bool   `json:"stall,omitempty"`  // park until the rest of the system is idle
 	Adv    int64  `json:"adv,omitempty"`    // the loader takes time: the clock moves by Adv while it runs (sequential engines)
+	// kind err: the call is made with a context that is already cancelled. A loader handed such a
+	// context fails (the harness loader does, being of kind err); otter itself passes the context on
+	// and must still invoke the loader, count the failure once and cache nothing.
+	Cancelled bool `json:"cancelled,omitempty"`
+}
+
+// ctxFor: the context a loading operation is called with.
+func (r *Runner) ctxFor(op *Op) context.Context {
+	if op.Load != nil && op.Load.Cancelled {
+		ctx, cancel := context.WithCancel(context.Background())
+		cancel()
+		r.fault("context-cancelled-before-call")
+		return ctx
+	}
+	return context.Background()
 }
 
 type Op struct {
@@ -766,13 +781,13 @@ func (r *Runner) Exec(op *Op) (res Result) {
 	case "setrefreshable":
 		c.SetRefreshableAfter(op.K, time.Duration(op.D))
 	case "load":
-		v, err := c.Get(context.Background(), op.K, loader{r: r, op: op, cnt: new(int)})
+		v, err := c.Get(r.ctxFor(op), op.K, loader{r: r, op: op, cnt: new(int)})
 		res.V, res.Err, res.Ok = v, errKind(err), err == nil
 	case "bulkget":
-		m, err := c.BulkGet(context.Background(), op.Ks, loader{r: r, op: op, bulk: true, cnt: new(int)})
+		m, err := c.BulkGet(r.ctxFor(op), op.Ks, loader{r: r, op: op, bulk: true, cnt: new(int)})
 		res.Map, res.Err = m, errKind(err)
 	case "refresh":
-		ch := c.Refresh(context.Background(), op.K, loader{r: r, op: op, cnt: new(int)})
+		ch := c.Refresh(r.ctxFor(op), op.K, loader{r: r, op: op, cnt: new(int)})
 		if ch == nil {
 			res.Nil = true
 		} else {
@@ -782,7 +797,7 @@ func (r *Runner) Exec(op *Op) (res Result) {
 			})
 		}
 	case "bulkrefresh":
-		ch := c.BulkRefresh(context.Background(), op.Ks, loader{r: r, op: op, bulk: true, cnt: new(int)})
+		ch := c.BulkRefresh(r.ctxFor(op), op.Ks, loader{r: r, op: op, bulk: true, cnt: new(int)})
 		if ch == nil {
 			res.Nil = true
 		} else {
